@@ -145,6 +145,7 @@ def run_tlc(module, cfg, workers=None, timeout=3600, simulate=None, depth=None, 
         cmd += extra_args
     cmd += [module]
     e = dict(os.environ)
+    e.setdefault("JAVA_TOOL_OPTIONS", "-Xss256m")
     if env:
         e.update(env)
     t0 = time.time()
@@ -424,9 +425,9 @@ class Verdict:
             c = collections.Counter()
             ex = {}
             for sig, what, _ in self.violations:
-                key = re.sub(r"[0-9]+", "N", what.split("::")[-1])[:160]
+                key = re.sub(r"[0-9]+", "N", what.split("::")[-1])[:100]
                 c[key] += 1
-                ex.setdefault(key, what[:300])
+                ex.setdefault(key, what[:400])
             for k, n in c.most_common(40):
                 print("DEBUG %6d  %s\n              e.g. %s" % (n, k, ex[k]))
         cov = self.cov
